@@ -326,10 +326,16 @@ func appendSnapshotVars(b []byte, s *slip.Scope) []byte {
 			b = appendDefVar(b, s, vv)
 			continue
 		}
+		setq := appendSetq(nil, s, vv)
+		if len(setq) == 0 {
+			// An object that can not be encoded such as a stream is
+			// excluded.
+			continue
+		}
 		if !isCorePackage(vv.Pkg) {
 			b = appendDefVar(b, s, vv)
 		}
-		b = appendSetq(b, s, vv)
+		b = append(b, setq...)
 	}
 	return b
 }
@@ -360,14 +366,24 @@ func appendSetq(b []byte, s *slip.Scope, vv *slip.VarVal) (out []byte) {
 	return pp.Append(b, s, form)
 }
 
+// ppValue returns a form that evaluates to the value. A value that is more
+// than its printed text (a vector with a fill pointer, an element type or a
+// fixed size, octets, an array, a hash table, an instance, also inside a list)
+// is written as its load form. A value without a load form such as a stream
+// panics, the variable is then left without a value.
 func ppValue(v slip.Object) (pv slip.Object) {
 	pv = v
 	switch tv := v.(type) {
 	case slip.Symbol:
 		pv = slip.LoadFormValue(tv)
 	case slip.List:
-		if 0 < len(tv) {
+		switch {
+		case len(tv) == 0:
+			// nil
+		case literalValue(tv):
 			pv = slip.List{slip.Symbol("quote"), tv}
+		default:
+			pv = ppList(tv)
 		}
 	case *slip.Package:
 		pv = slip.List{
@@ -381,8 +397,65 @@ func ppValue(v slip.Object) (pv slip.Object) {
 		}
 	case *flavors.Instance:
 		pv = ppInstance(tv)
+	case *slip.FuncInfo:
+		pv = slip.List{slip.Symbol("function"), slip.Symbol(tv.Name)}
+	case *slip.Lambda:
+		// written as a lambda expression
+	default:
+		if !literalValue(v) {
+			switch tl := v.(type) {
+			case slip.LoadFormer:
+				pv = tl.LoadForm()
+			case slip.Instance:
+				pv = slip.InstanceLoadForm(tl) // a structure
+			default:
+				slip.PrintNotReadablePanic(slip.NewScope(), 0, v, "Can not make a load form for %s.", v)
+			}
+		}
 	}
 	return
+}
+
+// ppList returns a form that builds the list from forms for its elements.
+func ppList(list slip.List) slip.Object {
+	if tail, ok := list[len(list)-1].(slip.Tail); ok {
+		form := slip.List{slip.Symbol("list*")}
+		for _, v := range list[:len(list)-1] {
+			form = append(form, ppValue(v))
+		}
+		return append(form, ppValue(tail.Value))
+	}
+	form := slip.List{slip.Symbol("list")}
+	for _, v := range list {
+		form = append(form, ppValue(v))
+	}
+	return form
+}
+
+// literalValue returns true if reading the printed text of the value gives
+// the value, on its own and inside a quoted list.
+func literalValue(v slip.Object) bool {
+	switch tv := v.(type) {
+	case nil, slip.Number, slip.String, slip.Character, slip.Symbol, slip.Time:
+		return true
+	case slip.List:
+		for _, e := range tv {
+			if !literalValue(e) {
+				return false
+			}
+		}
+		return true
+	case slip.Tail:
+		return literalValue(tv.Value)
+	case *slip.Vector:
+		// #(...) reads as an adjustable vector of any element type without
+		// a fill pointer.
+		if !tv.Adjustable() || 0 <= tv.FillPtr || tv.ElementType() != slip.TrueSymbol {
+			return false
+		}
+		return literalValue(tv.AsList())
+	}
+	return false
 }
 
 func ppInstance(inst *flavors.Instance) slip.Object {
